@@ -72,3 +72,15 @@ func VH_C19_identity_readers_footprint() {
 	_ = a.GetMobileIdentity5GSContents()
 	vrt.FootprintEnd("text getters of a shared mobile identity only read it")
 }
+
+// QoS serialisers on shared (not owned) rule and flow-description lists
+func VH_C19_shared_qos_serialisers_footprint() {
+	rules := QoSRules{{Identifier: vrt.U8("id"), Operation: OperationCodeCreateNewQoSRule, Precedence: vrt.U8("p"), QFI: vrt.U8("q") & 63,
+		PacketFilterList: PacketFilterList{{Identifier: 1, Direction: PacketFilterDirectionBidirectional, Components: PacketFilterComponentList{&PacketFilterMatchAll{}, &PacketFilterSingleRemotePort{Value: vrt.U16("port")}}}}}}
+	descs := QoSFlowDescs{{QFI: vrt.U8("dq") & 63, OperationCode: OperationCodeCreateNewQoSFlowDescription, Parameters: QoSFlowParameterList{&QoSFlow5QI{FiveQI: vrt.U8("5qi")}}}}
+	vrt.FootprintBegin()
+	_, _ = rules.MarshalBinary()
+	_, _ = descs.MarshalBinary()
+	_, _ = rules.MarshalBinary()
+	vrt.FootprintEnd("QoS serialisers write nothing reachable from the lists they serialise")
+}
